@@ -5,14 +5,14 @@ tier=${1:-quick}; par=${2:-4}
 cd /verif
 declare -A EXTRA=( [C01-w1]="C15" [C02-w1]="C17" [C04-w2]="C15" [C13-m2]="C15" [C11-m2]="C19" [C12-m2]="C04" [C04-m2]="C04"
   [regress-D3]="C10" [regress-D4]="C10" [regress-D1]="C02 C10" [regress-D21]="C02 C10" [regress-D40]="C02 C07 C10"
-  [C07-x1]="C17" [C08-x1]="C17" [C09-x1]="C17" [C12-x2]="C15" [C17-y2]="C02" )
-jobs=$(mktemp)
+  [C07-x1]="C17" [C08-x1]="C17" [C09-x1]="C17" [C12-x2]="C15" [C17-y2]="C02" [C19-z1]="C11" [C12-z2]="C15" [C13-z1]="C15" [C14-z1]="C15" )
+jobs=$(mktemp); res=$(mktemp); : > $res.skip
 for d in seeded/*/; do
   id=$(basename $d)
+  python3 -c "import json,sys;sys.exit(1 if json.load(open('$d/meta.json')).get('neutralised_by') else 0)" || { echo "| $id | - | - | neutralised by a later repair (see meta.json) |" >> $res.skip; continue; }
   prop=$(python3 -c "import json;print(json.load(open('$d/meta.json'))['property'])")
   for c in $(echo "$prop ${EXTRA[$id]}" | tr ' ' '\n' | sort -u); do echo "$id $prop $c" >> $jobs; done
 done
-res=$(mktemp)
 cat $jobs | xargs -P $par -L 1 bash -c '
   id=$0; prop=$1; c=$2
   r=$(./tools/run_seeded.sh $id $c '$tier' 2>&1 | grep "^SEEDED")
@@ -21,5 +21,5 @@ cat $jobs | xargs -P $par -L 1 bash -c '
   echo "| $id | $prop | $c | $out |" >> '$res'
   echo "$id $c $out"
 '
-{ echo "| seed | property | check | result |"; echo "|---|---|---|---|"; sort $res; } > seeded/KILL_MATRIX.md
-rm -f $jobs $res
+{ echo "| seed | property | check | result |"; echo "|---|---|---|---|"; sort $res $res.skip; } > seeded/KILL_MATRIX.md
+rm -f $jobs $res $res.skip
